@@ -68,7 +68,7 @@ TrEncode ==
     /\ UNCHANGED <<prog, pv, stage, ep, doc, dec, ran, res, origin, fx>>
 
 (* ---- a document arrives ------------------------------------------------ *)
-DocOf(e) == [shape |-> e.shape, key |-> e.key, body |-> e.body]
+DocOf(e) == [shape |-> e.shape, key |-> e.key, body |-> e.body, path |-> e.via]
 ShapeMatches(e) ==      \* the rendered text has the shape the specification asked for
     CASE e.shape = "obj1" -> IsObj(e.doc) /\ Len(e.doc.f) = 1 /\ e.doc.f[1].k = e.key
       [] e.shape = "obj0" -> IsObj(e.doc) /\ Len(e.doc.f) = 0
@@ -88,7 +88,8 @@ TrDeliver ==
                     m == IF E.remote = "instantiate" THEN EMethodsOf(P.parts[PartIx(P, "own")], "instantiate")[1]
                          ELSE MethodOf(P, E.part, E.method)
                IN RemoteSend(PartIx(P, pid), m)
-    /\ Chk("BIND", "mt_flight_repeats_the_previous_document", l, E.via = "mt" => fx.lastdoc = E.doc)
+    /\ Chk("BIND", "mt_flight_repeats_the_previous_document", l,
+           (E.via = "mt" /\ E.ep \notin Overridden(P)) => fx.lastdoc = E.doc)
     /\ fx' = [fx EXCEPT !.via = E.via, !.env = E.env, !.docj = E.doc, !.method = E.method, !.part = E.part,
                         !.lastdoc = E.doc]
 
@@ -137,7 +138,10 @@ TrStructDecode ==
 (* (silent step: the same document was decoded on the entry-point path just before) *)
 TrSilentDecode ==
     /\ stage = "delivered" /\ fx.via = "mt"
-    /\ IF ep \in EnumKinds
+    /\ IF ByOverride
+       THEN \* the user's function decodes its own message type: whether it accepted is read off the next event
+            OverrideDecode(IF l <= Len(Rec) /\ Rec[l].ev = "Handler" THEN "ok" ELSE "err")
+       ELSE IF ep \in EnumKinds
        THEN /\ pv' = fx.lastpv /\ dec' = fx.lastdec /\ stage' = "decoded" /\ UNCHANGED <<prog, ep, doc, ran, res, origin>>
        ELSE StructDecode(fx.lastsv) /\ UNCHANGED pv
     /\ UNCHANGED <<l, fx>>
@@ -159,10 +163,21 @@ CtxOk(e) ==
        THEN e.ctx.sender = fx.env.sender /\ e.ctx.funds = fx.env.funds
        ELSE e.ctx.sender = "" /\ e.ctx.funds = <<>>
 
+TrOverrideHandler ==      \* the user's own entry point function reports that it runs
+    /\ IsEvent("Handler")
+    /\ stage = "decoded" /\ dec.why = "override"
+    /\ Chk("C04", "handler_kind_is_the_entry_points_kind", l, E.kind = ep)
+    /\ OverrideRun
+    /\ Chk("C06", "an_overridden_kind_reaches_the_users_function", l,
+           ran'[Len(ran')] = [part |-> E.part, name |-> E.name, kind |-> E.kind])
+    /\ Chk("C06", "users_function_gets_the_callers_context", l, CtxOk(E))
+    /\ UNCHANGED <<pv, fx>>
+
 TrHandler ==
     /\ IsEvent("Handler")
-    /\ stage \in {"decoded", "ran"}
+    /\ stage \in {"decoded", "ran"} /\ dec.why # "override"
     /\ Chk("C04", "handler_kind_is_the_entry_points_kind", l, E.kind = ep)
+    /\ Chk("C06", "a_kind_that_is_not_overridden_is_served_by_the_generated_code", l, E.part # "override")
     /\ Chk("C02", "a_handler_runs_only_once_after_a_successful_decode", l, stage = "decoded" /\ dec.verdict = "ok")
     /\ Dispatch
     /\ Chk("C02", "the_handler_is_the_one_the_message_was_generated_from", l,
@@ -178,7 +193,7 @@ OkAttrs(m) == << <<"h", m.name>>, <<"code", ToString(m.code)>> >>
 QRespJson(m) ==      \* the JSON encoding of the value the echo query handler returns (its declared response type)
     [t |-> "o", f |-> << [k |-> "h", v |-> [t |-> "s", v |-> m.name]],
                          [k |-> "code", v |-> [t |-> "n", v |-> ToString(m.code)]] >>
-                      \o (IF m.resp = "QRespB" THEN << [k |-> "extra", v |-> [t |-> "b", v |-> "true"]] >> ELSE <<>>)]
+                      \o (IF m.ret = "QRespB" THEN << [k |-> "extra", v |-> [t |-> "b", v |-> "true"]] >> ELSE <<>>)]
 OutcomeOk(e, m) ==
     IF m.outcome = "ok"
     THEN /\ e.verdict = "ok"
@@ -192,7 +207,10 @@ TrReturn ==
     /\ Chk("C02", "a_successful_decode_runs_a_handler_before_returning", l,
            stage = "ran" \/ (stage = "decoded" /\ dec.verdict = "err"))
     /\ Return
-    /\ IF stage = "ran"
+    /\ IF stage = "ran" /\ dec.why = "override"
+       THEN Chk("C06", "caller_gets_the_users_functions_outcome", l,
+                E.verdict = "ok" /\ (ep = "query" \/ E.resp.attrs = << <<"h", "ov_" \o ep>>, <<"code", "0">> >>))
+       ELSE IF stage = "ran"
        THEN /\ Chk("C02", "caller_gets_the_handlers_own_outcome", l, OutcomeOk(E, OwnerMethod))
             /\ Chk("C02", "handler_used_the_callers_storage", l,
                    E.mark = (IF ep = "query" THEN "" ELSE OwnerMethod.name))
@@ -255,7 +273,7 @@ TrRemoteQueryReturn ==
     /\ UNCHANGED <<prog, pv, stage, ep, doc, dec, ran, res, origin, fx>>
 
 TStep == TrSchemas \/ TrRemoteMsg \/ TrRemoteQueryReturn \/ TrReset \/ TrLists \/ TrEncode \/ TrDeliver \/ TrWrapperDecode \/ TrStructDecode
-         \/ TrSilentDecode \/ TrHandler \/ TrReturn
+         \/ TrSilentDecode \/ TrOverrideHandler \/ TrHandler \/ TrReturn
 
 (* the design-level invariants of Runtime.tla, evaluated in every state the trace reaches *)
 (* (as a named check on the step, so that a violation is reported like any other clause)  *)
@@ -265,6 +283,8 @@ InvariantsHold ==
     /\ Chk("C02", "invariant_C02_ExactlyOne", l, C02_ExactlyOne')
     /\ Chk("C05", "invariant_C05_NoSharedName", l, C05_NoSharedName')
     /\ Chk("C06", "invariant_C06_OnlyEmitted", l, C06_OnlyEmitted')
+    /\ Chk("C06", "invariant_C06_OverrideReachesUser", l, C06_OverrideReachesUser')
+    /\ Chk("C06", "invariant_C06_OverrideIsLocal", l, C06_OverrideIsLocal')
     /\ Chk("C10", "invariant_C10_RemoteRoutesBack", l, C10_RemoteRoutesBack')
 TNext == TStep /\ (rvars' = rvars \/ InvariantsHold) /\ TLCSet(1, l')     \* (a state that did not change was judged when it was reached)
 TSpec == TInit /\ [][TNext]_tvars
